@@ -224,7 +224,7 @@ def oracle(seed, tier):
     viol, stats = [], {}
     c1, n1 = relayout_oracle(rng, decl, tier, wdir, viol, stats)
     c2, n2 = structured_oracle(rng, tier, wdir, viol, stats)
-    return {"violations": viol[:20], "summary": {"cases": c1 + c2, "violations": len(viol), "nontrivial": n1 + n2, "checks": stats},
+    return {"violations": trim_violations(viol, 20), "summary": {"cases": c1 + c2, "violations": len(viol), "nontrivial": n1 + n2, "checks": stats},
             "samples": [{"relayouts": ["explicit-models", "repeat-default-section", "both"], "structured": "straight trench, one section per coordinate, one overridden"}]}
 
 
